@@ -555,7 +555,10 @@ impl C10 {
                         if let Some(raw) = &t.options_raw {
                             let o = blob(l, "options");
                             expect("tcp.options_raw", o.len() >= raw.len() && &o[..raw.len()] == &raw[..] && o[raw.len()..].iter().all(|x| *x == 0) && o.len() == (raw.len() + 3) / 4 * 4, hex(o));
-                        } else if let Some(el) = &t.options {
+                        } else if let Some(el) = t.options.as_ref().or(t.pre_options.as_ref()) {
+                            if t.options.is_some() && t.pre_options.is_some() {
+                                rep.count("tcp.options_replaced_by_second_call");
+                            }
                             // compare through the independent reference encoder of the options
                             let re: Vec<crate::refmodel::tcpopts::ROpt> = el.iter().map(to_ref_elem).collect();
                             let enc = crate::refmodel::tcpopts::encode(&re);
@@ -655,9 +658,9 @@ fn link_len(c: &BConf) -> usize {
 impl Monitor for C10 {
     fn engines(&self, tier: Tier) -> Vec<(&'static str, u64)> {
         vec![
-            ("paths", PATHS * tier.pick(400, 4000)),
-            ("random", tier.pick(1_500_000, 15_000_000)),
-            ("limits", tier.pick(6_000, 40_000)),
+            ("paths", PATHS * tier.pick(400, 60_000)),
+            ("random", tier.pick(1_500_000, 225_000_000)),
+            ("limits", tier.pick(6_000, 600_000)),
         ]
     }
 
